@@ -206,8 +206,8 @@ package encode
 //@   modifies e.buf e.mode e.lod1 e.err e.highResolutionCoordinates mem.u8
 //@   ensures [C10.step.StartPath] (proto.afterStart S0 (bvugt adj #x06) S1)
 //@   let HR (old e.HighResolutionCoordinates)
-//@   at call quantize#0 assert [C01.enc.startpath.resolution] (and (= e.highResolutionCoordinates HR) (= arg1 x))
-//@   at call quantize#1 assert [C01.enc.startpath.resolution] (and (= e.highResolutionCoordinates HR) (= arg1 y))
+//@   at call quantize#0 assert [C01.enc.startpath.resolution C08.startpath.resolution] (and (= e.highResolutionCoordinates HR) (= arg1 x))
+//@   at call quantize#1 assert [C01.enc.startpath.resolution C08.startpath.resolution] (and (= e.highResolutionCoordinates HR) (= arg1 y))
 //@   at call encodeCoordinate#0 assert [C01.enc.startpath.opcode] (and (= (len e.buf) (bvadd XP0 (int 1))) (= (at e.buf XP0) (bvadd #xc0 adj)) (bvule adj #x06) (= arg1 (enc.quant HR x)))
 //@   at call encodeCoordinate#1 assert [C01.enc.startpath.second] (= arg1 (enc.quant HR y))
 //@   ensures [C01.enc.startpath.length] thorough (=> (proto.accepts S0 (bvugt adj #x06)) (and (bvuge (len e.buf) (bvadd XP0 (int 3))) (bvule (len e.buf) (bvadd XP0 (int 9))) (= (at e.buf XP0) (bvadd #xc0 adj))))
